@@ -490,7 +490,7 @@ class Gen:
                         'from': r.choice(allnames), 'to': to[0],
                         'kw': {} if r.random() < 0.7 else {'site': r.choice(SITES)}}
         if k < 67:
-            return {'op': 'remove_network_service', 'name': stale([tm.name(s) for s in top], r.choice(snames) if snames else 'ghost')}
+            return {'op': 'remove_network_service', 'name': stale([tm.name(s) for s in top], 'ghost')}
         if k < 74:
             pool = self.iface_refs(tm, only_free=r.random() < self.p_valid)
             if top and pool:
